@@ -7248,8 +7248,9 @@ def _do_merge(
 
     # Check for fast-forward
     if base_commit_id == head_commit_id and not no_ff:
-        # Fast-forward merge
-        r.refs[HEADREF] = merge_commit_id
+        # Fast-forward merge (only if the branch is still where it was read)
+        if not r.refs.set_if_equals(HEADREF, head_commit_id, merge_commit_id):
+            raise Error("HEAD changed during merge")
         # Update the working directory
         changes = tree_changes(r.object_store, head_commit.tree, merge_commit.tree)
         update_working_tree(
@@ -7319,8 +7320,9 @@ def _do_merge(
     # Add commit to object store
     r.object_store.add_object(merge_commit_obj)
 
-    # Update HEAD
-    r.refs[HEADREF] = merge_commit_obj.id
+    # Update HEAD (only if the branch is still at the commit that was merged into)
+    if not r.refs.set_if_equals(HEADREF, head_commit_id, merge_commit_obj.id):
+        raise Error("HEAD changed during merge")
 
     return (merge_commit_obj.id, [])
 
@@ -7459,8 +7461,9 @@ def _do_octopus_merge(
     # Add commit to object store
     r.object_store.add_object(merge_commit_obj)
 
-    # Update HEAD
-    r.refs[HEADREF] = merge_commit_obj.id
+    # Update HEAD (only if the branch is still at the commit that was merged into)
+    if not r.refs.set_if_equals(HEADREF, head_commit_id, merge_commit_obj.id):
+        raise Error("HEAD changed during merge")
 
     return (merge_commit_obj.id, [])
 
@@ -8210,8 +8213,11 @@ def revert(
                 # Add commit to object store
                 r.object_store.add_object(revert_commit)
 
-                # Update HEAD
-                r.refs[HEADREF] = revert_commit.id
+                # Update HEAD (only if the branch is still at the parent of the new commit)
+                if not r.refs.set_if_equals(
+                    HEADREF, head_commit_id, revert_commit.id
+                ):
+                    raise Error("HEAD changed during revert")
                 head_commit_id = revert_commit.id
 
         return head_commit_id if not no_commit else None
